@@ -121,6 +121,30 @@ def run(tier='quick', repo=None):
                         cb.name, bad[0][2].get('l'))} if bad else {}))
     if nback < 20:
         raise facts.AnalysisBroken('only %d provide call-backs of forwarded requests found' % nback)
+    # ---- R-same-answer ------------------------------------------------------------------
+    rep.rule('R-same-answer', 'X_provide_ubuf_mgr (UPIPE_HELPER_UBUF_MGR): an answer is dropped as a repetition - a return that has neither stored the flow format nor '
+             'called the pipe\'s check function - only on a path that compared the flow formats (udict_cmp): the same manager with an amended flow format, '
+             'which is what a newly connected output or a pooling probe hands out, is a new answer and reaches the requester')
+    nsame = 0
+    for uname, u in sorted(prog.units.items()):
+        for fn in sorted(u.funcs.values(), key=lambda f: f.name):
+            if fn.macro != 'UPIPE_HELPER_UBUF_MGR' or not fn.name.endswith('_provide_ubuf_mgr') or not fn.blocks:
+                continue
+            nsame += 1
+            ev = pr.Events(fn)
+            st = pr.m_store('FLOW_FORMAT')
+            early, _ = ev.reach(None, pr.m_return(), st, from_entry=True)
+            cmpc = pr.m_call('udict_cmp')
+            bad = []
+            for r_ in early:
+                hit, _ = ev.reach(None, lambda n_, r_=r_: n_ is r_[2], cmpc, from_entry=True)
+                if hit:
+                    bad.append(r_)
+            rep.add('R-same-answer', fn.name, VIOLATED if bad else HOLDS, fn.loc,
+                    **({'what': '%s drops an answer (return at line %s, flow format not stored, check function not called) without having compared the flow '
+                                'formats: an answer with the same manager and another flow format never reaches the requester' % (fn.name, bad[0][2].get('l'))} if bad else {}))
+    if nsame < 10:
+        raise facts.AnalysisBroken('only %d X_provide_ubuf_mgr functions found' % nsame)
     # ---- R-bin-fields -------------------------------------------------------------------
     rep.rule('R-bin-fields', 'a pipe type that instantiates both UPIPE_HELPER_BIN_INPUT and UPIPE_HELPER_BIN_OUTPUT binds FIRST_INNER and LAST_INNER to two different '
              'structure members: with one member store_bin_output() overwrites the pipe store_bin_input() has to withdraw the listed requests from, so the old '
